@@ -9,7 +9,7 @@ VERDICT = 'C13_verdict'
 PROPS_FILE = 'theories/Props/C13.v'
 THEOREM = 'C13_switch_events'
 RULE = ('one SimpleLoop, 1-4 WorldHandle doubles (real WorldHandle.load, a transform function '
-        'adds 1-3 scripted processors, a CoroutineProcessor and a listener component that logs '
+        'adds 1-3 scripted processors, a CoroutineProcessor with 1-3 logging coroutines (any of which may be the acting one) and a listener component that logs '
         'on_world_load / on_switch_in / on_switch_out / on_quit / poke with the serial numbers '
         'of the worlds passed); 2-6 operations: loop.switch from outside (all clear flags) and '
         'start() calls of 0-12 frames: normal / switch(h, clear_current[, from_world]) to any '
